@@ -224,11 +224,13 @@ def osDrain (os : OS) : Res Bytes :=
 
 
 /-- `oss.calls`: the call tokens `rN` (request N) and `aK` (advance min(K, what is granted)) -/
-def parseCallToks (toks : List String) : Option (List (Bool × Nat)) :=
+def parseCallToks (toks : List String) : Option (List (Nat × Nat)) :=
   toks.mapM fun t =>
     match t.toList with
-    | 'r' :: ds => (String.ofList ds).toNat?.map fun n => (true, n)
-    | 'a' :: ds => (String.ofList ds).toNat?.map fun n => (false, n)
+    | 'r' :: ds => (String.ofList ds).toNat?.map fun n => (0, n)
+    | 'a' :: ds => (String.ofList ds).toNat?.map fun n => (1, n)
+    | ['u'] => some (2, 0)                       -- the provided `take_opt_u8`
+    | 'k' :: ds => (String.ofList ds).toNat?.map fun n => (3, n)   -- the provided `skip`
     | _ => none
 
 def seenStr : Seen → String
@@ -236,34 +238,67 @@ def seenStr : Seen → String
   | .advanced sl => s!"a:{toHex sl}"
   | .refused => "refused"
 
-/-- through the model of `OctetStringSource` (each step is `ossRun` on a single call) -/
-def ossCallsModel (os : OS) (calls : List (Bool × Nat)) : String :=
-  let rec go : List (Bool × Nat) → OSS → List String → List String
+/-- through the model of `OctetStringSource` (each step is `ossRun` on a single call; the provided
+    methods `take_opt_u8` and `skip` are their default implementations over `request`/`slice`/`advance`) -/
+def ossCallsModel (os : OS) (calls : List (Nat × Nat)) : String :=
+  let rec go : List (Nat × Nat) → OSS → List String → List String
     | [], _, acc => acc.reverse
-    | (true, n) :: cs, s, acc =>
+    | (0, n) :: cs, s, acc =>
       match OSS.request s n with
       | .ok (_, s') => go cs s' ((ossRun [.request n] s).map seenStr ++ acc)
       | .error _ => (("refused") :: acc).reverse
-    | (false, k) :: cs, s, acc =>
+    | (1, k) :: cs, s, acc =>
       let t := min k s.current.length
       match OSS.advance s t with
       | .ok s' => go cs s' ((ossRun [.advance t] s).map seenStr ++ acc)
       | .error _ => (("refused") :: acc).reverse
+    | (2, _) :: cs, s, acc =>
+      match OSS.request s 1 with
+      | .ok (g, s1) =>
+        if g == 0 then go cs s1 (s!"unone:{toHex s1.current}" :: acc)
+        else match s1.current.head?, OSS.advance s1 1 with
+          | some b, .ok s2 => go cs s2 (s!"u{toHex [b]}:{toHex s2.current}" :: acc)
+          | _, _ => (("refused") :: acc).reverse
+      | .error _ => (("refused") :: acc).reverse
+    | (_, n) :: cs, s, acc =>
+      match OSS.request s n with
+      | .ok (g, s1) =>
+        let r := min g n
+        match OSS.advance s1 r with
+        | .ok s2 => go cs s2 (s!"k{r}:{toHex s2.current}" :: acc)
+        | .error _ => (("refused") :: acc).reverse
+      | .error _ => (("refused") :: acc).reverse
   " ".intercalate (go calls (OSS.new os) [])
 
 /-- through the abstract conforming source of the stream layer with the policy `ossPol segs` -/
-def ossCallsSpec (segs : List Bytes) (granted0 : Nat) (calls : List (Bool × Nat)) : String :=
+def ossCallsSpec (segs : List Bytes) (granted0 : Nat) (calls : List (Nat × Nat)) : String :=
   let pol := ossPol segs
-  let rec go : List (Bool × Nat) → S → List String → List String
+  let rec go : List (Nat × Nat) → S → List String → List String
     | [], _, acc => acc.reverse
-    | (true, n) :: cs, a, acc =>
+    | (0, n) :: cs, a, acc =>
       match a.baseRequest pol n with
       | .ok (_, a') => go cs a' ((absRun pol [.request n] a).map seenStr ++ acc)
       | .error _ => (("refused") :: acc).reverse
-    | (false, k) :: cs, a, acc =>
+    | (1, k) :: cs, a, acc =>
       let t := min k a.granted
       match a.advance t with
       | .ok a' => go cs a' ((absRun pol [.advance t] a).map seenStr ++ acc)
+      | .error _ => (("refused") :: acc).reverse
+    | (2, _) :: cs, a, acc =>
+      match a.baseRequest pol 1 with
+      | .ok (g, a1) =>
+        if g == 0 then go cs a1 (s!"unone:{toHex a1.slice}" :: acc)
+        else match a1.slice.head?, a1.advance 1 with
+          | some b, .ok a2 => go cs a2 (s!"u{toHex [b]}:{toHex a2.slice}" :: acc)
+          | _, _ => (("refused") :: acc).reverse
+      | .error _ => (("refused") :: acc).reverse
+    | (_, n) :: cs, a, acc =>
+      match a.baseRequest pol n with
+      | .ok (g, a1) =>
+        let r := min g n
+        match a1.advance r with
+        | .ok a2 => go cs a2 (s!"k{r}:{toHex a2.slice}" :: acc)
+        | .error _ => (("refused") :: acc).reverse
       | .error _ => (("refused") :: acc).reverse
   " ".intercalate (go calls { data := segs.flatten, granted := granted0, reqs := 0, failAt := none, limit := none } [])
 
